@@ -41,15 +41,101 @@ pub fn v0(b: &SBoard) -> bool {
 
 /// build() accepts exactly the boards satisfying C06's list, returns the builder's fields
 /// unchanged, and reports the documented error kind
+/// the query is partitioned (run in parallel): no exactly-one-king-each; kings fine but a side has
+/// more than 16 men; kings and counts fine (en-passant, castling rights, check) x side to move x
+/// en-passant file present or not
 #[kani::proof]
 #[kani::unwind(10)]
-pub fn c06_build_accepts_exactly_playable_positions() {
+#[kani::stub(l_between, fst::between)]
+#[kani::stub(l_rook_moves, fst::rook_moves)]
+#[kani::stub(l_bishop_moves, fst::bishop_moves)]
+#[kani::stub(l_rook_rays, fst::rook_rays)]
+#[kani::stub(l_bishop_rays, fst::bishop_rays)]
+#[kani::stub(l_knight_moves, fst::knight_moves)]
+#[kani::stub(l_king_moves, fst::king_moves)]
+#[kani::stub(l_pawn_attacks_moves, fst::pawn_attacks_moves)]
+pub fn c06_build_accepts_exactly_playable_positions_kings() {
+    body_build(0)
+}
+#[kani::proof]
+#[kani::unwind(10)]
+#[kani::stub(l_between, fst::between)]
+#[kani::stub(l_rook_moves, fst::rook_moves)]
+#[kani::stub(l_bishop_moves, fst::bishop_moves)]
+#[kani::stub(l_rook_rays, fst::rook_rays)]
+#[kani::stub(l_bishop_rays, fst::bishop_rays)]
+#[kani::stub(l_knight_moves, fst::knight_moves)]
+#[kani::stub(l_king_moves, fst::king_moves)]
+#[kani::stub(l_pawn_attacks_moves, fst::pawn_attacks_moves)]
+pub fn c06_build_accepts_exactly_playable_positions_counts() {
+    body_build(1)
+}
+#[kani::proof]
+#[kani::unwind(10)]
+#[kani::stub(l_between, fst::between)]
+#[kani::stub(l_rook_moves, fst::rook_moves)]
+#[kani::stub(l_bishop_moves, fst::bishop_moves)]
+#[kani::stub(l_rook_rays, fst::rook_rays)]
+#[kani::stub(l_bishop_rays, fst::bishop_rays)]
+#[kani::stub(l_knight_moves, fst::knight_moves)]
+#[kani::stub(l_king_moves, fst::king_moves)]
+#[kani::stub(l_pawn_attacks_moves, fst::pawn_attacks_moves)]
+pub fn c06_build_accepts_exactly_playable_positions_rules_w() {
+    body_build(2)
+}
+#[kani::proof]
+#[kani::unwind(10)]
+#[kani::stub(l_between, fst::between)]
+#[kani::stub(l_rook_moves, fst::rook_moves)]
+#[kani::stub(l_bishop_moves, fst::bishop_moves)]
+#[kani::stub(l_rook_rays, fst::rook_rays)]
+#[kani::stub(l_bishop_rays, fst::bishop_rays)]
+#[kani::stub(l_knight_moves, fst::knight_moves)]
+#[kani::stub(l_king_moves, fst::king_moves)]
+#[kani::stub(l_pawn_attacks_moves, fst::pawn_attacks_moves)]
+pub fn c06_build_accepts_exactly_playable_positions_rules_b() {
+    body_build(3)
+}
+#[kani::proof]
+#[kani::unwind(10)]
+#[kani::stub(l_between, fst::between)]
+#[kani::stub(l_rook_moves, fst::rook_moves)]
+#[kani::stub(l_bishop_moves, fst::bishop_moves)]
+#[kani::stub(l_rook_rays, fst::rook_rays)]
+#[kani::stub(l_bishop_rays, fst::bishop_rays)]
+#[kani::stub(l_knight_moves, fst::knight_moves)]
+#[kani::stub(l_king_moves, fst::king_moves)]
+#[kani::stub(l_pawn_attacks_moves, fst::pawn_attacks_moves)]
+pub fn c06_build_accepts_exactly_playable_positions_rules_w_ep() {
+    body_build(4)
+}
+#[kani::proof]
+#[kani::unwind(10)]
+#[kani::stub(l_between, fst::between)]
+#[kani::stub(l_rook_moves, fst::rook_moves)]
+#[kani::stub(l_bishop_moves, fst::bishop_moves)]
+#[kani::stub(l_rook_rays, fst::rook_rays)]
+#[kani::stub(l_bishop_rays, fst::bishop_rays)]
+#[kani::stub(l_knight_moves, fst::knight_moves)]
+#[kani::stub(l_king_moves, fst::king_moves)]
+#[kani::stub(l_pawn_attacks_moves, fst::pawn_attacks_moves)]
+pub fn c06_build_accepts_exactly_playable_positions_rules_b_ep() {
+    body_build(5)
+}
+fn body_build(part: u8) {
     let s = any_sboard();
     // the builder cannot assemble overlapping sets (place() refuses an occupied square)
     kani::assume(s.partition_ok());
     let h: u64 = kani::any();
     let b = to_board(&s, kani::any(), kani::any(), h);
     let kings_ok = s.of(0, KING).count_ones() == 1 && s.of(1, KING).count_ones() == 1;
+    let counts_ok = s.colors[0].count_ones() <= 16 && s.colors[1].count_ones() <= 16;
+    // parts 2..5: kings and counts fine, split by side to move and presence of an en-passant file
+    kani::assume(match part {
+        0 => !kings_ok,
+        1 => kings_ok && !counts_ok,
+        _ => kings_ok && counts_ok && s.turn == (part & 1) && s.ep.is_some() == (part >= 4),
+    });
     // bound of the from-scratch pin loop that runs on acceptance (C03 decides its result);
     // stated BEFORE the call so that the loop's unwinding assertion sees it
     if kings_ok {
@@ -89,8 +175,8 @@ pub fn c06_build_accepts_exactly_playable_positions() {
             }
         }
     }
-    kani::cover!(want);
-    kani::cover!(!want && kings_ok);
+    kani::cover!(want || part < 2);
+    kani::cover!(!want);
 }
 
 // ------------------------------------------------------------------------------- expanded FEN
@@ -213,6 +299,15 @@ fn abstract_key(pos: Pos, piece: Piece, color: Color) -> u64 {
     0x9e3779b97f4a7c15u64.wrapping_mul(1 + pos as u64 + 64 * piece as u64 + 384 * color as u64)
 }
 use chess_lookup::zobrist as l_zobrist;
+use chess_lookup::between as l_between;
+use chess_lookup::bishop_moves as l_bishop_moves;
+use chess_lookup::bishop_rays as l_bishop_rays;
+use chess_lookup::king_moves as l_king_moves;
+use chess_lookup::knight_moves as l_knight_moves;
+use chess_lookup::pawn_attacks_moves as l_pawn_attacks_moves;
+use chess_lookup::rook_moves as l_rook_moves;
+use chess_lookup::rook_rays as l_rook_rays;
+use crate::spec::fast as fst;
 
 fn any_digits() -> ([u8; 4], u16) {
     let mut d = [0u8; 4];
@@ -666,6 +761,100 @@ pub fn c06_castling_field_exact() {
     castling_letters(tail, 4);
 }
 
+/// the one-token decoder of the placement field, for EVERY first byte (and any following bytes):
+/// the twelve piece letters decode to their (colour, piece) and consume one byte, '1'..'8' to a
+/// run of that many empty squares and consume one byte, everything else (also the empty string)
+/// decodes to nothing and consumes nothing
+#[kani::proof]
+pub fn c06_placement_token_decoder_exact() {
+    let bytes: [u8; 3] = kani::any();
+    let n: usize = kani::any();
+    kani::assume(n <= 3);
+    let (out, used) = chess_movegen::fen::verif_parse_piece(&bytes[..n]);
+    let b = bytes[0];
+    let mut want: Option<Result<(u8, u8), u8>> = None;
+    if n >= 1 {
+        let mut p = 0u8;
+        while p < 6 {
+            if b == LETTERS[p as usize] {
+                want = Some(Ok((1, p)));
+            }
+            if b == LETTERS[p as usize] - 32 {
+                want = Some(Ok((0, p)));
+            }
+            p += 1;
+        }
+        if b >= b'1' && b <= b'8' {
+            want = Some(Err(b - b'0'));
+        }
+    }
+    let got = match out {
+        Some(Ok((c, p))) => Some(Ok((c as u8, p as u8))),
+        Some(Err(d)) => Some(Err(d)),
+        None => None,
+    };
+    assert!(got == want);
+    assert!(used == if want.is_some() { 1 } else { 0 });
+    kani::cover!(matches!(want, Some(Err(8))));
+    kani::cover!(matches!(want, Some(Ok((1, 5)))));
+}
+
+/// reference decoder of a canonical FEN's placement + side (concrete texts only)
+fn ref_decode(text: &[u8]) -> SBoard {
+    let mut s = SBoard { colors: [0, 0], pieces: [0; 6], turn: 0, rights: 0, ep: None, half: 0, full: 0 };
+    let mut r = 7i8;
+    let mut f = 0i8;
+    let mut i = 0usize;
+    while i < text.len() && text[i] != b' ' {
+        let b = text[i];
+        if b == b'/' {
+            r -= 1;
+            f = 0;
+        } else if b >= b'1' && b <= b'8' {
+            f += (b - b'0') as i8;
+        } else {
+            let q = (r * 8 + f) as u8;
+            let mut p = 0u8;
+            while p < 6 {
+                if b == LETTERS[p as usize] {
+                    s.colors[1] |= bit(q);
+                    s.pieces[p as usize] |= bit(q);
+                }
+                if b == LETTERS[p as usize] - 32 {
+                    s.colors[0] |= bit(q);
+                    s.pieces[p as usize] |= bit(q);
+                }
+                p += 1;
+            }
+            f += 1;
+        }
+        i += 1;
+    }
+    s.turn = if text[i + 1] == b'w' { 0 } else { 1 };
+    s
+}
+fn concrete_text(text: &[u8]) {
+    let b = parse_fen(text).unwrap();
+    let got = to_sboard(&b);
+    let want = ref_decode(text);
+    assert!(got.same_placement(&want) && got.turn == want.turn);
+    assert!(b.verif_parts().zobrist == spec_piece_hash(&got));
+    let p = b.verif_parts();
+    assert!(p.checkers.to_u64() == checkers(&got) && p.pinned.to_u64() == pins(&got));
+}
+/// the placement loop on concrete canonical texts with every run length 1..8, runs at the start,
+/// middle and end of a rank, full and empty ranks (the loop's counters are not reachable with
+/// symbolic bytes - see the module comment; the token decoder above is decided for every byte)
+#[kani::proof]
+#[kani::unwind(100)]
+pub fn c06_placement_loop_on_concrete_texts() {
+    concrete_text(b"r3k2r/p1ppqpb1/bn2pnp1/3PN3/1p2P3/2N2Q1p/PPPBBPPP/R3K2R w KQkq - 0 1");
+    concrete_text(b"8/2p5/3p4/KP5r/1R3p1k/8/4P1P1/8 w - - 0 1");
+    concrete_text(b"k7/1p6/2P5/3p4/4P3/5p2/6P1/7K b - - 12 34");
+    concrete_text(b"7k/8/8/8/8/8/8/K7 w - - 99 9999");
+    concrete_text(b"1n1k4/2p5/3p4/4p3/5P2/6P1/P6P/RNBQKBNR b KQ - 3 17");
+}
+
 // ------------------------------------------------------------------------------------ writer
 
 pub struct Sink {
@@ -699,6 +888,11 @@ impl core::fmt::Write for Sink {
 /// Shape per harness: concrete placement, rights and en-passant file; side to move as given;
 /// both clocks symbolic inside a digit-count class (so the text length is a constant).
 fn body_roundtrip(base: SBoard, prefix: &'static [u8], half_lo: u16, half_hi: u16, full_lo: u16, full_hi: u16) {
+    body_roundtrip_sym(base, prefix, 0, half_lo, half_hi, full_lo, full_hi)
+}
+/// `sym`: the occupied squares of this set get a symbolic piece identity and colour
+fn body_roundtrip_sym(base: SBoard, prefix: &'static [u8], sym: u64, half_lo: u16, half_hi: u16, full_lo: u16, full_hi: u16) {
+    unsafe { SYM_SQUARES = sym };
     // the parser half on a 32-piece text exceeds 12 GB (measured); it is decided on the two-king
     // texts of the c06_total_on_arbitrary_tail / c06_clock_field_exact queries instead
     body_roundtrip_part(base, prefix, half_lo, half_hi, full_lo, full_hi, true, false)
@@ -706,10 +900,34 @@ fn body_roundtrip(base: SBoard, prefix: &'static [u8], half_lo: u16, half_hi: u1
 fn body_roundtrip_part(base: SBoard, prefix: &'static [u8], half_lo: u16, half_hi: u16, full_lo: u16, full_hi: u16, writer: bool, parser: bool) {
     use core::fmt::Write;
     let mut s = base;
+    // the occupied squares of `sym` get a symbolic piece identity and colour (the occupancy - hence
+    // the digit runs and every text offset - stays as in the base position; the validity assumption
+    // below keeps kings, castling rooks and the en-passant pawn where the shape needs them).
+    // Measured: even 8 symbolic identities exceed 12 GB (each symbolic `char` forks four ways in
+    // core::fmt's UTF-8 encoder), so every shape currently passes the empty set.
+    let sym = unsafe { SYM_SQUARES };
+    let mut q = 0u8;
+    while q < 64 {
+        if has(base.occ() & sym, q) {
+            let code: u8 = kani::any();
+            kani::assume(code < 12);
+            let m = !bit(q);
+            s.colors[0] &= m;
+            s.colors[1] &= m;
+            let mut p = 0;
+            while p < 6 {
+                s.pieces[p] &= m;
+                p += 1;
+            }
+            s.colors[(code / 6) as usize] |= bit(q);
+            s.pieces[(code % 6) as usize] |= bit(q);
+        }
+        q += 1;
+    }
     s.half = kani::any();
     s.full = kani::any();
     kani::assume(s.half >= half_lo && s.half <= half_hi && s.full >= full_lo && s.full <= full_hi);
-    assert!(valid(&s));
+    kani::assume(valid(&s));
     let want_len = canonical_len(&base, half_lo, full_lo);
     // reference text = the shape's hand-written constant prefix (placement, side, rights,
     // en-passant square) + the two clocks in decimal; built from constants so that the parser
@@ -725,13 +943,18 @@ fn body_roundtrip_part(base: SBoard, prefix: &'static [u8], half_lo: u16, half_h
     n += 1;
     n = put_number(&mut reference, n, s.full, digits(full_lo));
     assert!(n == want_len);
-    // the hand-written prefix is the canonical text of the base position
-    let canon = canonical_fen(&s, digits(half_lo), digits(full_lo));
+    // the hand-written prefix is the canonical text of the BASE position (a check of the
+    // reference writer itself); the reference text of s is then produced by the reference writer
+    let mut base_clocks = base;
+    base_clocks.half = s.half;
+    base_clocks.full = s.full;
+    let canon_base = canonical_fen(&base_clocks, digits(half_lo), digits(full_lo));
     let mut i = 0;
     while i < 96 {
-        assert!(canon[i] == reference[i]);
+        assert!(canon_base[i] == reference[i]);
         i += 1;
     }
+    let reference = canonical_fen(&s, digits(half_lo), digits(full_lo));
     // (1) the real writer
     let b = to_board(&s, pins(&s), checkers(&s), kani::any());
     if writer {
@@ -866,6 +1089,7 @@ fn put_number(out: &mut [u8; 96], at: usize, v: u16, k: usize) -> usize {
     n + 1
 }
 
+static mut SYM_SQUARES: u64 = 0;
 fn digits(v: u16) -> usize {
     if v >= 1000 {
         4
@@ -944,24 +1168,24 @@ fn start_with(moves: &[(u8, u8)], turn: u8, ep: Option<u8>) -> SBoard {
 #[kani::proof]
 #[kani::unwind(97)]
 pub fn c05_roundtrip_start_position() {
-    body_roundtrip(start_with(&[], 0, None), b"rnbqkbnr/pppppppp/8/8/8/8/PPPPPPPP/RNBQKBNR w KQkq - ", 0, 9, 0, 9)
+    body_roundtrip_sym(start_with(&[], 0, None), b"rnbqkbnr/pppppppp/8/8/8/8/PPPPPPPP/RNBQKBNR w KQkq - ", 0, 0, 9, 0, 9)
 }
 #[kani::proof]
 #[kani::unwind(97)]
 pub fn c05_roundtrip_ep_black_to_move() {
     // after 1.e4: en-passant square e3, Black to move; rank 4 (the pawn's) symbolic
-    body_roundtrip(start_with(&[(12, 28)], 1, Some(4)), b"rnbqkbnr/pppppppp/8/8/4P3/8/PPPP1PPP/RNBQKBNR b KQkq e3 ", 0, 9, 10, 99)
+    body_roundtrip_sym(start_with(&[(12, 28)], 1, Some(4)), b"rnbqkbnr/pppppppp/8/8/4P3/8/PPPP1PPP/RNBQKBNR b KQkq e3 ", 0, 0, 9, 10, 99)
 }
 #[kani::proof]
 #[kani::unwind(97)]
 pub fn c05_roundtrip_ep_white_to_move() {
     // after 1.e4 a6 2.e5 d5: en-passant square d6, White to move; rank 5 symbolic
-    body_roundtrip(start_with(&[(12, 28), (48, 40), (28, 36), (51, 35)], 0, Some(3)), b"rnbqkbnr/1pp1pppp/p7/3pP3/8/8/PPPP1PPP/RNBQKBNR w KQkq d6 ", 0, 9, 100, 999)
+    body_roundtrip_sym(start_with(&[(12, 28), (48, 40), (28, 36), (51, 35)], 0, Some(3)), b"rnbqkbnr/1pp1pppp/p7/3pP3/8/8/PPPP1PPP/RNBQKBNR w KQkq d6 ", 0, 0, 9, 100, 999)
 }
 #[kani::proof]
 #[kani::unwind(97)]
 pub fn c05_roundtrip_start_black_to_move() {
-    body_roundtrip(start_with(&[], 1, None), b"rnbqkbnr/pppppppp/8/8/8/8/PPPPPPPP/RNBQKBNR b KQkq - ", 10, 99, 1000, 9999)
+    body_roundtrip_sym(start_with(&[], 1, None), b"rnbqkbnr/pppppppp/8/8/8/8/PPPPPPPP/RNBQKBNR b KQkq - ", 0, 10, 99, 1000, 9999)
 }
 #[kani::proof]
 #[kani::unwind(97)]
@@ -973,7 +1197,76 @@ pub fn c05_roundtrip_partial_rights_endgame() {
     s.pieces[KING as usize] = bit(4) | bit(60);
     s.pieces[ROOK as usize] = bit(7) | bit(0) | bit(56);
     s.pieces[PAWN as usize] = bit(9) | bit(27) | bit(54);
-    body_roundtrip(s, b"r3k3/6p1/8/8/3P4/8/1P6/R3K2R w Kq - ", 100, 999, 1, 9)
+    body_roundtrip_sym(s, b"r3k3/6p1/8/8/3P4/8/1P6/R3K2R w Kq - ", 0, 100, 999, 1, 9)
+}
+
+
+fn rights_shape(rights: u8, prefix: &'static [u8]) {
+    let mut s = SBoard { colors: [0, 0], pieces: [0; 6], turn: 1, rights, ep: None, half: 0, full: 0 };
+    s.colors[0] = bit(4) | bit(0) | bit(7);
+    s.colors[1] = bit(60) | bit(56) | bit(63);
+    s.pieces[KING as usize] = bit(4) | bit(60);
+    s.pieces[ROOK as usize] = bit(0) | bit(7) | bit(56) | bit(63);
+    body_roundtrip_sym(s, prefix, 0, 0, 9, 10, 99)
+}
+macro_rules! rights_shape {
+    ($name:ident, $rights:expr, $prefix:expr) => {
+        #[kani::proof]
+        #[kani::unwind(97)]
+        pub fn $name() {
+            rights_shape($rights, $prefix)
+        }
+    };
+}
+// every subset of the castling rights: letters and their order in the writer's text
+// harness-family: c05_writer_rights_k_{0..15}
+rights_shape!(c05_writer_rights_k_0, 0, b"r3k2r/8/8/8/8/8/8/R3K2R b - - ");
+rights_shape!(c05_writer_rights_k_1, 1, b"r3k2r/8/8/8/8/8/8/R3K2R b K - ");
+rights_shape!(c05_writer_rights_k_2, 2, b"r3k2r/8/8/8/8/8/8/R3K2R b Q - ");
+rights_shape!(c05_writer_rights_k_3, 3, b"r3k2r/8/8/8/8/8/8/R3K2R b KQ - ");
+rights_shape!(c05_writer_rights_k_4, 4, b"r3k2r/8/8/8/8/8/8/R3K2R b k - ");
+rights_shape!(c05_writer_rights_k_5, 5, b"r3k2r/8/8/8/8/8/8/R3K2R b Kk - ");
+rights_shape!(c05_writer_rights_k_6, 6, b"r3k2r/8/8/8/8/8/8/R3K2R b Qk - ");
+rights_shape!(c05_writer_rights_k_7, 7, b"r3k2r/8/8/8/8/8/8/R3K2R b KQk - ");
+rights_shape!(c05_writer_rights_k_8, 8, b"r3k2r/8/8/8/8/8/8/R3K2R b q - ");
+rights_shape!(c05_writer_rights_k_9, 9, b"r3k2r/8/8/8/8/8/8/R3K2R b Kq - ");
+rights_shape!(c05_writer_rights_k_10, 10, b"r3k2r/8/8/8/8/8/8/R3K2R b Qq - ");
+rights_shape!(c05_writer_rights_k_11, 11, b"r3k2r/8/8/8/8/8/8/R3K2R b KQq - ");
+rights_shape!(c05_writer_rights_k_12, 12, b"r3k2r/8/8/8/8/8/8/R3K2R b kq - ");
+rights_shape!(c05_writer_rights_k_13, 13, b"r3k2r/8/8/8/8/8/8/R3K2R b Kkq - ");
+rights_shape!(c05_writer_rights_k_14, 14, b"r3k2r/8/8/8/8/8/8/R3K2R b Qkq - ");
+rights_shape!(c05_writer_rights_k_15, 15, b"r3k2r/8/8/8/8/8/8/R3K2R b KQkq - ");
+
+fn ep_shape(file: u8, white_to_move: bool, prefix: &'static [u8]) {
+    // a lone double-stepped pawn on `file`, kings in the corners
+    let mut s = SBoard { colors: [0, 0], pieces: [0; 6], turn: if white_to_move { 0 } else { 1 }, rights: 0, ep: Some(file), half: 0, full: 0 };
+    s.colors[0] = bit(0);
+    s.colors[1] = bit(63);
+    s.pieces[KING as usize] = bit(0) | bit(63);
+    let pawn = if white_to_move { 32 + file } else { 24 + file };
+    s.colors[if white_to_move { 1 } else { 0 }] |= bit(pawn);
+    s.pieces[PAWN as usize] |= bit(pawn);
+    body_roundtrip_sym(s, prefix, 0, 0, 9, 1, 9)
+}
+#[kani::proof]
+#[kani::unwind(97)]
+pub fn c05_writer_ep_a_file_white_to_move() {
+    ep_shape(0, true, b"7k/8/8/p7/8/8/8/K7 w - a6 ")
+}
+#[kani::proof]
+#[kani::unwind(97)]
+pub fn c05_writer_ep_h_file_white_to_move() {
+    ep_shape(7, true, b"7k/8/8/7p/8/8/8/K7 w - h6 ")
+}
+#[kani::proof]
+#[kani::unwind(97)]
+pub fn c05_writer_ep_a_file_black_to_move() {
+    ep_shape(0, false, b"7k/8/8/8/P7/8/8/K7 b - a3 ")
+}
+#[kani::proof]
+#[kani::unwind(97)]
+pub fn c05_writer_ep_h_file_black_to_move() {
+    ep_shape(7, false, b"7k/8/8/8/7P/8/8/K7 b - h3 ")
 }
 
 /// standard() == parse(start FEN) == builder(start position), on every field
